@@ -33,6 +33,7 @@ func runC19(opt *Options) int {
 			{Name: "K7.repeated", Pkg: "comments", Harness: "VerifHarness_C19_Repeated", Unwind: 600},
 			{Name: "K7.filescan", Pkg: "comments", Harness: "VerifHarness_C19_ParseDocsFiles", Unwind: 64, E2E: "c19"},
 			{Name: "K7.nomarker", Pkg: "comments", Harness: "VerifHarness_C19_NoMarker", Unwind: 64},
+			{Name: "K7.funcdecls", Pkg: "comments", Harness: "VerifHarness_C19_FuncDecls", Unwind: 200, E2E: "c19"},
 			kernelConverterLines("c19"),
 			{Name: "K6.methodlines", Pkg: "config", Harness: "VerifHarness_C12_MethodLines", Unwind: 64, E2E: "c19", Stub: []string{"github.com/jmattheis/goverter/method.Parse", "(*github.com/jmattheis/goverter/pkgload.PackageLoader).GetOne"}},
 		},
